@@ -192,8 +192,8 @@ func genStamp(rt *rapid.T, label string, o Options) Stamp {
 		d := genDate(rt, label)
 		s.Date = &d
 	}
-	if s.Date == nil {
-		return s // sub-seconds and offsets qualify a date; alone they define no timestamp
+	if s.Date == nil && !Chance(rt, label+".qualifiers-alone", 0.15) {
+		return s // (mostly) sub-seconds and offsets come with their date; alone they define no timestamp, which must then be reported as absent
 	}
 	if Chance(rt, label+".sub?", 0.5) {
 		n := 3
